@@ -247,3 +247,97 @@ Proof.
   intros a Ha D4 D5. rewrite !ramb_setR. rewrite entry5_ramb by (unfold RAMB in *; lia).
   apply entry0_ramb; rewrite ?ES; assumption.
 Qed.
+
+Lemma exec_callps_kernel ir m : iopcode ir = 12460 -> is_kernel m = true ->
+  exec ir m =
+  bind (irq_push (R m R_PCBP) m) (fun _ m1 =>
+    let m2 := psw_enter_1 (setR m1 R_PC (add32 (R m1 R_PC) 2)) in
+    bind (context_switch_1 (R m 0) m2) (fun _ m3 => bind (context_switch_2 (R m 0) m3) (fun _ m4 =>
+      bind (context_switch_3 (psw_enter_2 m4)) (fun _ m5 => Ok 0 m5)))).
+Proof. intros H K. unfold exec. rewrite H. cbn. rewrite K. reflexivity. Qed.
+
+Lemma callps_is_entry_from ir m :
+  iopcode ir = 12460 -> is_kernel m = true ->
+  bus_wf (mbus m) -> in_ram_w (R m R_ISP) -> R m R_ISP + 4 < 4294967296 ->
+  exec ir m = bind (entry_from (R m 0) (setR m R_PC (add32 (R m R_PC) 2))) (fun _ m5 => Ok 0 m5).
+Proof.
+  intros Ho K W HS Hlt. rewrite exec_callps_kernel by assumption.
+  pose proof HS as [s1 [s2 s3]].
+  unfold irq_push. rewrite wr_word_ram by assumption. cbn [bind]. cbv zeta. rewrite R_stw.
+  assert (A4 : add32 (R m R_ISP) 4 = R m R_ISP + 4) by (unfold add32, w32; rewrite Z.mod_small; unfold RAMB, RAME in *; lia).
+  rewrite A4.
+  assert (E : psw_enter_1 (setR (setR (stw m (R m R_ISP) (R m R_PCBP)) R_ISP (R m R_ISP + 4)) R_PC
+                (add32 (R (setR (stw m (R m R_ISP) (R m R_PCBP)) R_ISP (R m R_ISP + 4)) R_PC) 2))
+              = entry0 (setR m R_PC (add32 (R m R_PC) 2))).
+  { unfold psw_enter_1, entry0, psw1, setPSW, PSW. cbv zeta. rconst.
+    repeat first [rewrite R_setR_other by lia | rewrite R_stw | rewrite R_setR_same].
+    destruct m as [rg bs]. unfold setR, stw, with_regs, with_bus, R. cbn [mregs mbus]. f_equal. }
+  rewrite E. unfold entry_from.
+  destruct (context_switch_1 (R m 0) (entry0 (setR m R_PC (add32 (R m R_PC) 2)))) as [u m3|e m3| |]; cbn [bind]; auto.
+  destruct (context_switch_2 (R m 0) m3) as [u2 m4|e m4| |]; cbn [bind]; auto.
+Qed.
+
+(* CALLPS to a control block (kernel level, without R and I) whose code returns at once with RETPS: the caller
+   continues after the CALLPS with SP, r0-r10, PCBP, ISP, condition codes, priority and execution level as they were *)
+Theorem callps_retps_transparent irc irr m :
+  iopcode irc = 12460 -> iopcode irr = 12488 -> is_kernel m = true ->
+  bus_wf (mbus m) ->
+  let N := R m 0 in
+  let P := R m R_PCBP in
+  let S := R m R_ISP in
+  in_ram_w N -> in_ram_w (N + 4) -> in_ram_w (N + 8) ->
+  in_ram_w P -> in_ram_w (P + 4) -> in_ram_w (P + 8) -> in_ram_w S -> S + 4 < 4294967296 ->
+  (P + 12 <= N \/ N + 12 <= P) -> (S + 4 <= P \/ P + 12 <= S) -> (S + 4 <= N \/ N + 12 <= S) ->
+  let H := ldw m N in
+  0 <= H -> Z.testbit H 8 = false -> Z.testbit H 7 = false -> Z.testbit H 11 = false -> Z.testbit H 12 = false ->
+  Z.testbit (PSW m) 7 = false ->
+  0 <= R m R_SP < 4294967296 ->
+  exists m1 m2,
+    exec irc m = Ok 0 m1 /\ exec irr m1 = Ok 0 m2
+    /\ R m2 R_PC = add32 (R m R_PC) 2 /\ R m2 R_SP = R m R_SP /\ R m2 R_PCBP = P /\ R m2 R_ISP = S
+    /\ (forall i, 0 <= i <= 10 -> R m2 i = R m i)
+    /\ (forall k, In k [21; 20; 19; 18; 16; 15; 14; 13; 12; 11; 10; 9; 7] -> Z.testbit (PSW m2) k = Z.testbit (PSW m) k)
+    /\ (forall a, RAMB <= a -> (a < S \/ S + 4 <= a) -> (a < P \/ P + 12 <= a) -> ramb m2 a = ramb m a).
+Proof.
+  intros Hc Hr K W N P S HN0 HN4 HN8 HP0 HP4 HP8 HS Hlt D1 D2 D3 H H0 HR HI H11 H12 PI Hsp.
+  set (mc := setR m R_PC (add32 (R m R_PC) 2)).
+  assert (Wc : bus_wf (mbus mc)) by exact W.
+  assert (Rc : forall i, 0 <= i <= 15 -> i <> 15 -> R mc i = R m i)
+    by (intros i Hi Ni; unfold mc; apply R_setR_other; unfold R_PC; lia).
+  assert (Lc : forall a, ldw mc a = ldw m a) by (intros a; apply ldw_setR).
+  assert (Bc : forall a, ramb mc a = ramb m a) by (intros a; apply ramb_setR).
+  destruct (entry_from_effect mc N P S H Wc) as [m1 [E1 [W1 [Isp1 [Pcbp1 [Psw1 [Pc1 [Sp1 [Rg1 [LS [LP [LP4 [LP8 Fr]]]]]]]]]]]]];
+    try assumption.
+  { apply Rc; unfold R_PCBP; lia. } { apply Rc; unfold R_ISP; lia. } { apply Lc. }
+  rewrite (callps_is_entry_from irc m Hc K W HS Hlt). fold N. fold mc. rewrite E1. cbn [bind].
+  pose proof HP0 as [p1 [p2 p3]]. pose proof HS as [s1 [s2 s3]].
+  assert (Pr : 0 <= P < 4294967296) by (unfold RAMB, RAME in *; lia).
+  assert (EP : ldw m1 (R m1 R_ISP - 4) = P).
+  { rewrite Isp1. replace (S + 4 - 4) with S by lia. rewrite LS. now apply w32_id. }
+  assert (PSWc : PSW mc = PSW m) by (unfold PSW; apply Rc; unfold R_PSW; lia).
+  destruct (retps_effect irr m1 Hr) as [m2 [E2 [B2 [Isp2 [Pcbp2 [Psw2 [Pc2 [Sp2 Rg2]]]]]]]].
+  - eapply handler_psw_kernel; eauto.
+  - exact W1.
+  - rewrite Isp1. unfold RAMB in *. lia.
+  - rewrite Isp1. replace (S + 4 - 4) with S by lia. exact HS.
+  - rewrite EP. exact HP0.
+  - rewrite EP. exact HP4.
+  - rewrite EP. exact HP8.
+  - rewrite EP, LP, PSWc. unfold w32. rewrite Z.mod_pow2_bits_low with (n := 32) by lia.
+    unfold saved_psw. rewrite Z.lor_spec, testbit_clr32, Z.land_spec, HR. psw_consts. eval_closed_bits.
+    now rewrite andb_false_r.
+  - rewrite EP, LP, PSWc. unfold w32. rewrite Z.mod_pow2_bits_low with (n := 32) by lia.
+    unfold saved_psw, psw1. repeat (rewrite Z.lor_spec || rewrite Z.land_spec || rewrite testbit_clr32).
+    rewrite PI. psw_consts. eval_closed_bits. rewrite ?andb_false_r, ?andb_true_r, ?orb_false_r. reflexivity.
+  - rewrite EP in *. exists m1, m2.
+    split; [reflexivity|]. split; [exact E2|].
+    split.
+    { rewrite Pc2, LP4. unfold mc. rewrite R_setR_same. unfold add32. unfold w32. now rewrite Z.mod_mod. }
+    split; [rewrite Sp2, LP8; rewrite Rc by (unfold R_SP; lia); now apply w32_id|].
+    split; [exact Pcbp2|].
+    split; [rewrite Isp2, Isp1; lia|].
+    split; [intros i Hi; rewrite Rg2 by lia; rewrite Rg1 by lia; apply Rc; lia|].
+    split.
+    + intros k Hk. rewrite Psw2, LP, PSWc. now apply saved_psw_keeps_bit.
+    + intros a Ha Da Db. unfold ramb. rewrite B2. fold (ramb m1 a). rewrite Fr by assumption. apply Bc.
+Qed.
